@@ -520,6 +520,122 @@ def xattr_writer_stage(tools, work, rep, ev, tier, rng):
     return n + len(tcases)
 
 
+def sqfsdiff_stage(tools, work, rep, ev, tier, rng):
+    """spec/SqfsDiff.tla (outside the 19 properties: the fifth tool): pairs of trees x --no-owner / --no-perm / --no-contents;
+    both images are written by the real gensquashfs, the real sqfsdiff's exit status and report lines are compared with the
+    model AS BUILT.  A difference is specification drift (no alarm); a sanitizer report or a signal while the images just
+    written are read back is reported (reader-disagrees)."""
+    cfg = work + "/sd.cfg"
+    INV = ["Sound", "Reflexive", "Mirror", "FlagsOnlyHide"]
+    write_cfg(cfg, init="Init", nxt="Next", constants={"Emit": False, "SlinkTargetCounted": True}, invariants=INV, deadlock=False)
+    r = run_tlc("SqfsDiff", cfg, workers=8, timeout=900)
+    ev.tlc(r, "SqfsDiff (declarative meaning = walk)")
+    if not r["ok"]:
+        print("MODEL-FAILURE: SqfsDiff violates %s" % r["violated"])
+        return None
+    write_cfg(cfg, init="Init", nxt="Next", constants={"Emit": False, "SlinkTargetCounted": False}, invariants=["Sound"], deadlock=False)
+    r = run_tlc("SqfsDiff", cfg, workers=8, timeout=900)
+    ev.tlc(r, "SqfsDiff as built (link target difference printed, status 0)")
+    ev.set("sqfsdiff_as_built_is_sound", r["ok"])
+    write_cfg(cfg, init="Init", nxt="Next", constants={"Emit": True, "SlinkTargetCounted": False}, invariants=["EmitOK"], deadlock=False)
+    r = run_tlc("SqfsDiff", cfg, workers=4, timeout=900, heap="12g")
+    import re as _re
+    raw = sorted(set(_re.findall(r'<<"RESULT", "((?:[^"\\]|\\.)*)">>', r["out"])))
+    if len(raw) < 100000:
+        print("SELF-CHECK-FAILED: SqfsDiff emitted %d cases" % len(raw))
+        return None
+    rng.shuffle(raw)
+    cases = [json.loads(t.encode().decode("unicode_escape")) for t in raw[: (1500 if tier == "quick" else 40000)]]
+    PERM = {("dir", 1): 0o755, ("dir", 2): 0o700, ("file", 1): 0o644, ("file", 2): 0o600, ("slink", 1): 0o777, ("slink", 2): 0o770, ("dev", 1): 0o644, ("dev", 2): 0o600}
+    srcs = {}
+    for v, d in ((1, b"x"), (2, b"yy"), (3, b"z")):
+        srcs[v] = "%s/sdsrc%d" % (work, v)
+        open(srcs[v], "wb").write(d)
+
+    def line(path, e):
+        o = 1000 if e["own"] else 0
+        m = PERM[(e["kind"], e["perm"])]
+        if e["kind"] == "dir":
+            return "dir %s 0%o %d %d\n" % (path, m, o, o)
+        if e["kind"] == "file":
+            return "file %s 0%o %d %d %s\n" % (path, m, o, o, srcs[e["val"]])
+        if e["kind"] == "slink":
+            return "slink %s 0%o %d %d t%d\n" % (path, m, o, o, e["val"])
+        return "nod %s 0%o %d %d c 1 %d\n" % (path, m, o, o, e["val"])
+    images = {}
+
+    def image(t):
+        key = json.dumps(t, sort_keys=True)
+        if key not in images:
+            txt = ""
+            ents = t["ents"] if isinstance(t["ents"], dict) else {}
+            for n in sorted(ents):
+                e = ents[n]
+                txt += line("/" + n, e)
+                if e["c"]["kind"] != "none":
+                    txt += line("/%s/c" % n, e["c"])
+            p = "%s/sd%d" % (work, len(images))
+            open(p + ".txt", "w").write(txt)
+            rc, o, er = sh([tools + "/gensquashfs", "-q", "-f", "--defaults", "mode=%o" % (0o755 if t["root"]["perm"] == 1 else 0o700), "-F", p + ".txt", p + ".sqfs"], timeout=60)
+            images[key] = p + ".sqfs" if rc == 0 else None
+        return images[key]
+    for c in cases:
+        image(c["a"]); image(c["b"])
+    WHAT = [("has a different type", "type"), ("has different permissions", "perm"), ("has different ownership", "owner"), ("has different device number", "dev"),
+            ("has a different link target", "target")]
+
+    def run(i):
+        c = cases[i]
+        a, b = image(c["a"]), image(c["b"])
+        if not a or not b:
+            return i, None, None, "gensquashfs failed"
+        cmd = [tools + "/sqfsdiff", "-a", a, "-b", b]
+        for fl, opt in (("noOwner", "-O"), ("noPerm", "-P"), ("noContents", "-C")):
+            if c["fl"][fl]:
+                cmd.append(opt)
+        rc, o, er = sh(cmd, timeout=30)
+        if b"ERROR: AddressSanitizer" in er or rc < 0 or rc >= 124:
+            return i, rc, None, er[-300:].decode(errors="replace")
+        lines = set()
+        for l in o.decode(errors="replace").split("\n"):
+            l = l.strip()
+            if not l:
+                continue
+            if l[:2] in ("< ", "> "):
+                lines.add((l[2:] if l[2:].startswith("/") else "/" + l[2:], l[0]))
+                continue
+            m = _re.match(r"regular file (\S+) differs", l)
+            if m:
+                lines.add((m.group(1), "content"))
+                continue
+            for txt, w in WHAT:
+                if l.endswith(txt):
+                    lines.add((l[: -len(txt)].strip(), w))
+        return i, rc, lines, None
+    n, drift, crashed = 0, [], False
+    with ThreadPoolExecutor(16) as ex:
+        for i, rc, lines, err in ex.map(run, range(len(cases))):
+            c = cases[i]
+            if err is not None:
+                if rc is not None and not crashed:
+                    crashed = True
+                    rep.violation("reader-disagrees", "sqfsdiff on two images gensquashfs just wrote ends with status %s: %s" % (rc, err), data={"case": c})
+                continue
+            n += 1
+            want = {(l["path"], l["what"]) for l in c["lines"]}
+            if rc != c["status"] or lines != want:
+                drift.append((c["a"], c["b"], c["fl"], rc, c["status"], sorted(lines ^ want)))
+    ev.set("sqfsdiff_pairs_run", n)
+    ev.set("sqfsdiff_images", len(images))
+    ev.set("sqfsdiff_results_that_differ_from_the_model(spec drift, no alarm)", len(drift))
+    if drift:
+        print("SPEC-DRIFT (no alarm): %d sqfsdiff results differ from SqfsDiff.tla, e.g. %s" % (len(drift), json.dumps(drift[0])[:400]))
+    if n < len(cases) // 2:
+        print("SELF-CHECK-FAILED: only %d of %d sqfsdiff cases ran" % (n, len(cases)))
+        return None
+    return n
+
+
 def run(tier):
     ev = Evidence(PID, tier, "exploration")
     rep = Reporter(PID, ev)
@@ -734,6 +850,10 @@ def run(tier):
             rep.violation("id-table-overflow", "%d distinct ids: exit 0 but the image does not read back: %s" % (nid + 1, diffs))
         elif rc != 0 and nid + 1 <= 0xFFFF:
             rep.violation("pack-refuses-valid", "%d distinct ids are representable but gensquashfs refuses them (rc %d)" % (nid + 1, rc))
+    dn = sqfsdiff_stage(tools, work, rep, ev, tier, rng)
+    if dn is None:
+        return 2
+    evaluations += dn
     xn = xattr_writer_stage(tools, work, rep, ev, tier, rng)
     if xn is None:
         return 2
